@@ -81,6 +81,10 @@ func (P *Program) modCompute(fn *ssa.Function) map[string]bool {
 			}
 			return
 		}
+		if os.Getenv("VC_TRACE") != "" && !m[hn] {
+			_, file, line, _ := runtime.Caller(2)
+			fmt.Fprintf(os.Stderr, "modset plain %s in %s via %s:%d\n", hn, fn.Name(), filepath.Base(file), line)
+		}
 		m[hn] = true
 	}
 	var addType func(t types.Type)
@@ -109,6 +113,46 @@ func (P *Program) modCompute(fn *ssa.Function) map[string]bool {
 			put(hn)
 		}
 	}
+	// localSlice: the slice value was created in this function (make, nil, append chains on such, clones)
+	lsVisiting := map[ssa.Value]bool{}
+	var localSlice func(v ssa.Value, depth int) bool
+	localSlice = func(v ssa.Value, depth int) bool {
+		if depth > 12 {
+			return false
+		}
+		if lsVisiting[v] {
+			return true // cycle through a loop phi: decided by the other edges
+		}
+		lsVisiting[v] = true
+		defer delete(lsVisiting, v)
+		switch x := v.(type) {
+		case *ssa.MakeSlice:
+			return true
+		case *ssa.Const:
+			return x.Value == nil
+		case *ssa.Slice:
+			if _, isPtr := x.X.Type().Underlying().(*types.Pointer); isPtr {
+				_, isAlloc := x.X.(*ssa.Alloc)
+				return isAlloc
+			}
+			return localSlice(x.X, depth+1)
+		case *ssa.Phi:
+			for _, e := range x.Edges {
+				if e != ssa.Value(x) && !localSlice(e, depth+1) {
+					return false
+				}
+			}
+			return true
+		case *ssa.Call:
+			if bi, ok := x.Call.Value.(*ssa.Builtin); ok && bi.Name() == "append" {
+				return localSlice(x.Call.Args[0], depth+1)
+			}
+			if sc := x.Call.StaticCallee(); sc != nil && sc.String() == "bytes.Clone" {
+				return true
+			}
+		}
+		return false
+	}
 	// rootAlloc: the address is a field/element path into an object allocated in this function
 	var rootAlloc func(v ssa.Value) bool
 	rootAlloc = func(v ssa.Value) bool {
@@ -121,7 +165,7 @@ func (P *Program) modCompute(fn *ssa.Function) map[string]bool {
 			if _, isPtr := x.X.Type().Underlying().(*types.Pointer); isPtr {
 				return rootAlloc(x.X)
 			}
-			if ms, ok := x.X.(*ssa.MakeSlice); ok && ms != nil {
+			if localSlice(x.X, 0) {
 				return true
 			}
 			if sl, ok := x.X.(*ssa.Slice); ok {
@@ -149,7 +193,7 @@ func (P *Program) modCompute(fn *ssa.Function) map[string]bool {
 				addType(T)
 			default:
 				hn, _ := tt.fieldHeap(si, fa.Field)
-				m[hn] = true
+				put(hn)
 			}
 			return
 		}
@@ -217,7 +261,11 @@ func (P *Program) modCompute(fn *ssa.Function) map[string]bool {
 					switch bi.Name() {
 					case "append", "copy":
 						m["$alloc"] = true
+						if localSlice(c.Args[0], 0) {
+							fresh = true
+						}
 						addType(c.Args[0].Type().Underlying().(*types.Slice).Elem())
+						fresh = false
 					case "delete":
 						addMapHeaps(m, c.Args[0].Type().Underlying().(*types.Map))
 					case "clear":
@@ -261,6 +309,9 @@ func (P *Program) modCompute(fn *ssa.Function) map[string]bool {
 				if callee == nil {
 					if mc, ok := c.Value.(*ssa.MakeClosure); ok {
 						callee = mc.Fn.(*ssa.Function)
+					} else if isHashCtor(c.Value.Type()) {
+						m["$alloc"] = true
+						continue
 					} else if ok := isAssumedPure(valueName(c.Value)); ok {
 						continue
 					} else if _, isParam := c.Value.(*ssa.Parameter); isParam {
@@ -275,7 +326,11 @@ func (P *Program) modCompute(fn *ssa.Function) map[string]bool {
 				for k := range P.modCompute(callee) {
 					m[k] = true
 				}
-				// closures passed as arguments may run
+				// closures passed as arguments may run (time.AfterFunc runs its argument on another
+				// goroutine later: concurrency is not modelled)
+				if callee.String() == "time.AfterFunc" {
+					continue
+				}
 				for _, a := range c.Args {
 					for {
 						ct, ok := a.(*ssa.ChangeType)
@@ -297,6 +352,8 @@ func (P *Program) modCompute(fn *ssa.Function) map[string]bool {
 							// forwarded from our own caller
 						} else if cst, isConst := a.(*ssa.Const); isConst && cst.Value == nil {
 							// nil function
+						} else if isHashCtor(a.Type()) {
+							// func() hash.Hash values are hash constructors (sha256.New, ...): allocation only
 						} else if ok := isAssumedPure(valueName(a)); ok {
 							// a callback declared free of effects
 						} else {
@@ -335,4 +392,13 @@ func addMapHeaps(m map[string]bool, mt *types.Map) {
 	m["MD$"+k] = true
 	m["MV$"+k] = true
 	m["MN$"+k] = true
+}
+
+// isHashCtor: the type func() hash.Hash.
+func isHashCtor(t types.Type) bool {
+	sig, ok := t.Underlying().(*types.Signature)
+	if !ok || sig.Params().Len() != 0 || sig.Results().Len() != 1 {
+		return false
+	}
+	return fullType(sig.Results().At(0).Type()) == "hash.Hash"
 }
